@@ -157,3 +157,28 @@ func init() {
 }
 
 var _ = types.Typ
+
+func init() {
+	// encoding/xml: same opaque-document treatment as encoding/json; the
+	// encoder is a zero xml.Encoder whose writer is kept in a side table.
+	reg("encoding/xml.NewEncoder", func(ex *Exec, fr *frame, fn *ssa.Function, args []Value) Value {
+		var cell Value = zero(fn.Pkg.Type("Encoder").Type())
+		p := &cell
+		ex.pathState[fmt.Sprintf("xmlenc:%p", p)] = args[0]
+		return p
+	})
+	reg("(*encoding/xml.Encoder).Encode", func(ex *Exec, fr *frame, fn *ssa.Function, args []Value) Value {
+		enc := args[0].(*Value)
+		if enc == nil {
+			ex.goPanic("nil *xml.Encoder")
+		}
+		ex.stub("encoding/xml Encoder.Encode: opaque document marker written to the writer")
+		w, _ := ex.pathState[fmt.Sprintf("xmlenc:%p", enc)].(Iface)
+		docs, _ := ex.pathState["xml-docs"].([]Value)
+		ex.pathState["xml-docs"] = append(docs, args[1])
+		if w.t != nil {
+			ex.callMethod(fr, w, "Write", sliceOfBytes(mkStr(fmt.Sprintf("<xml-doc n=\"%d\"/>", len(docs))).b))
+		}
+		return Iface{}
+	})
+}
